@@ -111,14 +111,15 @@ Definition model_sync_cond (num len : nat) (needAll : bool) : bool :=
 (* waitOne's first test: nothing outstanding *)
 Definition model_waitone_empty (num : nat) : bool := Nat.eqb num 0.
 
-(* ---- initTaskManager (graph_run.go): a Graph waits for all tasks of a step, a Workflow (eager) for one; the
+(* ---- initTaskManager (graph_run.go) and the eager flag of graph.compile (graph.go): a Graph waits for all tasks of a step, a Workflow (eager) for one; the
    hand-off channel has ONE slot (the LTS's [done : option entry]) ---- *)
 Record tminit := mkTmInit {
   ti_needall_not_eager : bool;    (* needAll: !r.eager *)
   ti_done_cap : nat;              (* done: make(chan *task, n) *)
+  ti_eager_iff_workflow : bool;   (* graph.compile: the runner is eager exactly when the graph is a Workflow *)
 }.
 Definition needAll_of (i : tminit) (eager : bool) : bool := if ti_needall_not_eager i then negb eager else eager.
-Definition model_tm_init : tminit := mkTmInit true 1.
+Definition model_tm_init : tminit := mkTmInit true 1 true.
 
 (* ---- updateChan as a function of the list and the slot ---- *)
 Inductive qend := QFront | QBack.
